@@ -78,7 +78,8 @@ pub fn gen_base(w: &World, r: &mut Rng, mix: Mix, proto: Option<Proto>) -> Base 
         let ev = Evolve::swarm(r);
         let tv = if is_recursive(&w.schema, def.name) && r.chance(1, 3) {
             // a deep spine through the recursive fields (errors many generated-struct levels deep)
-            let d = r.range(8, 40) as usize;
+            // mostly 8..40 levels, sometimes beyond every fixed-size table a reader might keep (64, 128)
+            let d = if r.chance(1, 5) { r.range(60, 140) } else { r.range(8, 40) } as usize;
             spine(&w.schema, r, def.name, d)
         } else {
             let mut cx = GenCtx::new(r, knobs);
@@ -566,6 +567,14 @@ pub fn enumerate_faults(r: &mut Rng, b: &Base, tier: Tier, want_all_truncations:
                 // boundary ids plus the ids of other fields of this message (a repeated id, a swapped id)
                 let mut vals: Vec<i64> = vec![0, 1, -1, 32767, -32768];
                 if !is_pb {
+                    // just inside the ends of the id range (arithmetic on an id from the wire: id + 15, id - last)
+                    const NEAR: [i64; 8] = [32766, 32760, 32753, 32752, 32751, -32767, -32760, -32753];
+                    if tier == Tier::Thorough {
+                        vals.extend_from_slice(&NEAR);
+                    } else {
+                        vals.push(*r.pick(&NEAR));
+                        vals.push(*r.pick(&NEAR));
+                    }
                     let others: Vec<&Span> = b.spans.iter().filter(|o| o.kind == SpanKind::FieldId && o.start != sp.start).collect();
                     for _ in 0..3.min(others.len()) {
                         let o = *r.pick(&others);
